@@ -87,6 +87,11 @@ def build_harness(race=False):
     return None if rc == 0 else out
 
 
+def repo_compiles():
+    rc, _ = sh(["go", "build", "./..."], cwd=REPO, env=GOENV, timeout=900)
+    return rc == 0
+
+
 def regenerate_facts():
     """Run the extractor on /repo; replace Extracted.lean only when it changed."""
     gen = os.path.join(LEAN, "Dhcp/Gen/Extracted.lean")
@@ -265,8 +270,12 @@ def check(pid, tier, replay=None):
                 print("cannot build extractor:\n" + e); return 2
             e = regenerate_facts()
             if e:
-                # the source no longer loads/compiles: not a verdict about the property
-                print(e); return 2
+                if not repo_compiles():
+                    # the source no longer compiles: not a verdict about the property
+                    print(e); return 2
+                # the tree compiles but the extractor cannot read it any more (an anchor's
+                # package/type disappeared): the facts are not re-established
+                broken.append(dict(kind="facts", name="extractor", detail=e[-1500:]))
             targets = cfg["props"] + cfg["facts"] + ["dhcp-driver"]
             rc, bout = lake_build(targets)
             prop_ths, fact_ths = [], []
@@ -293,13 +302,25 @@ def check(pid, tier, replay=None):
                     failed.append("leanchecker rejected the compiled proofs")
                     notes.append(lc[-2000:])
             e = build_harness()
+            no_harness = False
             if e:
-                print("cannot build harness against /repo (does the tree compile?):\n" + e[-4000:]); return 2
+                if not repo_compiles():
+                    print("cannot build harness against /repo (the tree does not compile):\n" + e[-4000:]); return 2
+                # the library compiles but the harness does not compile against it (an exported
+                # signature it uses changed): the correspondence cannot be run, so the property
+                # is no longer shown to hold for this tree
+                no_harness = True
+                broken.append(dict(kind="correspondence", name="harness-build",
+                                   detail="the correspondence harness does not compile against this tree: " + e[-1500:]))
             # private copy of the binaries so later runs cannot replace them under us
             hbin = os.path.join(workdir, "harness")
             dbin = os.path.join(workdir, "dhcp-driver")
-            shutil.copyfile(os.path.join(BIN, "harness"), hbin); os.chmod(hbin, 0o755)
-            shutil.copyfile(DRIVER, dbin); os.chmod(dbin, 0o755)
+            if not no_harness:
+                shutil.copyfile(os.path.join(BIN, "harness"), hbin); os.chmod(hbin, 0o755)
+            if os.path.exists(DRIVER):
+                shutil.copyfile(DRIVER, dbin); os.chmod(dbin, 0o755)
+        if no_harness:
+            cfg = dict(cfg, streams=[], oracles=[], race_oracles=[])
 
         all_ths = prop_ths + fact_ths
         discharged, unchecked = [], []
